@@ -313,7 +313,7 @@ async def _cap(w, coro):
 
 def space(tier):
     sp = Space(ID)
-    sp.add("random", 12000 if tier == "quick" else 1_200_000, gen_plan)
+    sp.add("random", 30000 if tier == "quick" else 1_200_000, gen_plan)
     sp.add("known_v2_stream", 60 if tier == "quick" else 2000, gen_known_v2_stream)
     sp.add("known_first_packet", 60 if tier == "quick" else 2000, gen_known_first_packet)
     return sp
